@@ -111,7 +111,7 @@ func (c *Cfg) Options() *pf.GameOptions {
 	}
 	o.Deck = append([]string{}, c.Deck...)
 	if c.ConstructorDeck {
-		o.Deck = baseDeck(c.ShortDeck)
+		o.Deck = engineDeck(c.ShortDeck)
 	}
 	for i := 0; i < c.N; i++ {
 		o.Players = append(o.Players, &pf.PlayerSetting{Bankroll: c.Bank[i], Positions: c.Positions(i)})
@@ -293,7 +293,12 @@ func genBankroll(rt *rapid.T, c *Cfg, pr Profile) int64 {
 // decks
 // ---------------------------------------------------------------------------
 
-func baseDeck(short bool) []string {
+// baseDeck: the 52 / 36 cards, listed by the harness itself (generation must not
+// depend on what the engine's deck constructors return).
+func baseDeck(short bool) []string { return cards.Deck(short) }
+
+// engineDeck: what the engine's own constructor returns, as a table gets it.
+func engineDeck(short bool) []string {
 	if short {
 		return pf.NewShortDeckCards()
 	}
